@@ -555,6 +555,14 @@ Section DirProofs.
       ext [] m (expected_triples analyze ps t) (vec_of (eligible_files_rec t)) ps.
   Proof. intros t Hok. exact (walk_entries_ext t [] Hok). Qed.
 
+  Lemma analyze_dir_union_any_lemma : forall t, all_ok analyze ps t ->
+    exists m, analyze_dir t ps = Ok m /\
+      Permutation (flatten m) (expected_triples analyze ps t) /\ nonempty_entries m.
+  Proof.
+    intros t H. destruct (analyze_dir_ext t H) as [m [Hm (P & _ & _ & _ & E)]].
+    exists m. split; [exact Hm|]. split; [exact P|]. apply E. intros k v [].
+  Qed.
+
   Lemma analyze_dir_union_lemma : forall t, NoDup ps -> all_ok analyze ps t ->
     exists m, analyze_dir t ps = Ok m /\
       NoDup (keys m) /\
@@ -616,8 +624,7 @@ Section DirProofs.
 
   (* the culprit of an aborted run: an eligible file that cannot be read, or whose analysis
      panics for a selected pattern *)
-  Definition file_bad (f : file) : Prop :=
-    snd f = None \/ exists c p s, snd f = Some c /\ In p ps /\ analyze p c = Panic s.
+  Notation file_bad := (file_bad analyze ps).
 
   Lemma file_ok_or_bad : forall f, file_ok analyze ps f \/ file_bad f.
   Proof.
@@ -725,6 +732,14 @@ Section DirProofs.
     unfold DirSpec.finding_of. cbn [fst snd]. rewrite E. now left.
   Qed.
 
+  Lemma verdict_vector_lemma : forall t m p,
+    NoDup ps -> In p ps -> analyze_dir t ps = Ok m -> lookup m p = expected_vector analyze p t.
+  Proof.
+    intros t m p Hnd Hp Hm. pose proof (analyze_dir_ok_inv t m Hm) as Hok.
+    destruct (analyze_dir_union_lemma t Hnd Hok) as [m0 [Hm0 (_ & _ & L & _)]].
+    rewrite Hm in Hm0. injection Hm0 as <-. now apply L.
+  Qed.
+
   Lemma verdict_lemma : forall t m p name c,
     In p ps -> analyze_dir t ps = Ok m ->
     In (name, Some c) (eligible_files_rec t) ->
@@ -794,6 +809,54 @@ Proof.
     cbn [flat_map]. rewrite filter_app. f_equal; [exact IHe | exact IHl].
 Qed.
 
-Check analyze_dir_union_lemma.
-Check verdict_lemma.
-Check analyze_dir_panic_iff_lemma.
+
+(* ====================================================================== C03: the listing order does not matter *)
+Lemma Permutation_filter' : forall {A} (f : A -> bool) l l', Permutation l l' -> Permutation (filter f l) (filter f l').
+Proof.
+  intros A f l l' H. induction H as [|x l l' _ IH|x y l|l1 l2 l3 _ IH1 _ IH2]; cbn.
+  - constructor.
+  - destruct (f x); [now constructor | exact IH].
+  - destruct (f x), (f y); try apply Permutation_refl. apply perm_swap.
+  - eapply Permutation_trans; eassumption.
+Qed.
+
+Lemma tree_perm_files : forall t t', tree_perm t t' -> Permutation (eligible_files_rec t) (eligible_files_rec t').
+Proof.
+  intros t t' H. unfold eligible_files_rec. apply Permutation_filter'.
+  induction H as [l l' H | d ch ch' l1 l2 _ IH | a b c _ IH1 _ IH2]; unfold all_files_rec in *.
+  - now apply Permutation_flat_map.
+  - rewrite !flat_map_app'. cbn [flat_map files_of]. apply Permutation_app_head, Permutation_app_tail, IH.
+  - eapply Permutation_trans; eassumption.
+Qed.
+
+Lemma listing_order_lemma : forall (pattern : Type) (eq_dec : forall a b : pattern, {a = b} + {a <> b})
+    (analyze : pattern -> string -> res (list Z)) (ps : list pattern) t t' m,
+  tree_perm t t' -> analyze_dir eq_dec analyze t ps = Ok m ->
+  exists m', analyze_dir eq_dec analyze t' ps = Ok m' /\ Permutation (flatten m) (flatten m').
+Proof.
+  intros pattern eq_dec analyze ps t t' m Hp Hm.
+  pose proof (tree_perm_files t t' Hp) as Hf.
+  pose proof (analyze_dir_ok_inv pattern eq_dec analyze ps t m Hm) as Hok.
+  assert (Hok' : all_ok analyze ps t') by (unfold all_ok in *; eapply Permutation_Forall; eassumption).
+  destruct (analyze_dir_ext pattern eq_dec analyze ps t Hok) as [m0 [Hm0 (P0 & _)]].
+  destruct (analyze_dir_ext pattern eq_dec analyze ps t' Hok') as [m' [Hm' (P' & _)]].
+  rewrite Hm in Hm0. injection Hm0 as <-. exists m'. split; [exact Hm'|].
+  cbn [app] in P0, P'. eapply Permutation_trans; [exact P0|]. eapply Permutation_trans; [|apply Permutation_sym, P'].
+  unfold expected_triples. now apply Permutation_flat_map.
+Qed.
+
+(* ====================================================================== C15: the same verdict in any two runs *)
+Lemma verdict_two_runs_lemma : forall (pattern : Type) (eq_dec : forall a b : pattern, {a = b} + {a <> b})
+    (analyze : pattern -> string -> res (list Z)) ps1 ps2 t1 t2 m1 m2 p name c,
+  In p ps1 -> In p ps2 ->
+  analyze_dir eq_dec analyze t1 ps1 = Ok m1 -> analyze_dir eq_dec analyze t2 ps2 = Ok m2 ->
+  In (name, Some c) (eligible_files_rec t1) -> In (name, Some c) (eligible_files_rec t2) ->
+  (forall c', In (name, c') (eligible_files_rec t1) -> c' = Some c) ->
+  (forall c', In (name, c') (eligible_files_rec t2) -> c' = Some c) ->
+  verdict (lookup eq_dec m1 p) name = verdict (lookup eq_dec m2 p) name.
+Proof.
+  intros pattern eq_dec analyze ps1 ps2 t1 t2 m1 m2 p name c Hp1 Hp2 H1 H2 I1 I2 U1 U2.
+  pose proof (verdict_lemma pattern eq_dec analyze ps1 t1 m1 p name c Hp1 H1 I1 U1) as V1.
+  pose proof (verdict_lemma pattern eq_dec analyze ps2 t2 m2 p name c Hp2 H2 I2 U2) as V2.
+  rewrite V1 in V2. now injection V2.
+Qed.
